@@ -815,10 +815,14 @@ def _root_dir_facts():
             raise _err("collect.pytask_collect_node: root_dir is assigned outside the DirectoryNode block")
     RD = "node.root_dir"
 
+    env = {}      # helper variables: `joined = path / node.root_dir`
+
     def expr_steps(e):
         u = _u(e)
         if u == RD:
             return []
+        if isinstance(e, ast.Name) and e.id in env:
+            return expr_steps(env[e.id])
         if isinstance(e, ast.Call) and _u(e.func) == f"{path}.joinpath" and len(e.args) == 1 and not e.keywords:
             return expr_steps(e.args[0]) + [("joinModuleDir",)]
         if isinstance(e, ast.BinOp) and isinstance(e.op, ast.Div) and _u(e.left) == path:
@@ -837,6 +841,8 @@ def _root_dir_facts():
                 for acc in (rel, ab):
                     if acc is not None:
                         acc.extend(steps)
+            elif isinstance(st, ast.Assign) and len(st.targets) == 1 and isinstance(st.targets[0], ast.Name) and RD in _u(st.value):
+                env[st.targets[0].id] = st.value
             elif isinstance(st, ast.Expr) and isinstance(st.value, ast.Call) and _callee(st.value) == "_raise_error_if_casing_of_path_is_wrong" \
                     and st.value.args and _u(st.value.args[0]) == RD:
                 for acc in (rel, ab):
